@@ -13,12 +13,13 @@ import (
 func init() { Registry["C08"] = C08 }
 
 type c08Arch struct {
-	Name    string
-	Text    string
-	Fails   bool // generate fails when the file is processed alone
-	Chain   bool
-	Include bool // not a rule file: lives in include/
-	OfPrev  bool // chain link file of the previous file's rule (same id, offset 1)
+	Name        string
+	Text        string
+	Fails       bool // generate fails when the file is processed alone
+	Chain       bool
+	Include     bool // not a rule file: lives in include/
+	OfPrev      bool // chain link file of the previous file's rule (same id, offset 1)
+	FailsFormat bool // format of the file fails as well
 }
 
 var c08Archs = []c08Arch{
@@ -37,6 +38,7 @@ var c08Archs = []c08Arch{
 	{Name: "include-helper2-with-suffix-pairs", Text: "##!> include helper2 -- x y\n"},
 	{Name: "cmdline-marked-words", Text: "##!> cmdline unix\ncurl@\nwget~\n##!<\n"},
 	{Name: "cmdline-bare-words", Text: "##!> cmdline unix\ncurl\nwget@\n##!<\n"},
+	{Name: "stray-end-marker", Text: "  foo\n##!<\n", Fails: true, FailsFormat: true},
 }
 
 type c08File struct {
@@ -89,11 +91,7 @@ func c08Build(sel []int) c08Tree {
 func c08Trees(max int) []c08Tree {
 	var out []c08Tree
 	enumSeq(len(c08Archs), max, func(_ int, seq []int) {
-		for i, a := range seq {
-			if c08Archs[a].Fails && i != len(seq)-1 {
-				return // failing archetypes only in the last walk position
-			}
-		}
+		// (for update and compare a failing archetype is only explored in the last walk position, see below)
 		// include helpers sort after rule files in the walk; keep them last as well
 		for i, a := range seq {
 			if c08Archs[a].Include && i != len(seq)-1 {
@@ -160,7 +158,16 @@ func C08(r *core.Run) {
 			for _, a := range tr.Archs {
 				anyFails = anyFails || c08Archs[a].Fails
 			}
+			failsEarly := false
+			for i, a := range tr.Archs {
+				if c08Archs[a].Fails && i != len(tr.Archs)-1 {
+					failsEarly = true
+				}
+			}
 			for _, cmd := range []string{"update", "compare", "format"} {
+				if failsEarly && cmd != "format" {
+					continue // update/compare --all stop at the first failing file by design (C16): only format continues
+				}
 				var files []c08File
 				for _, f := range tr.Files {
 					if cmd != "format" && f.ID == "" {
@@ -241,6 +248,16 @@ func C08(r *core.Run) {
 					continue
 				}
 				term := terminals[0]
+				if cmd == "format" {
+					// format --all handles every file on its own, failing ones included
+					if treeHash(allTree) != treeHash(term.tree) {
+						fail("all-equals-any-order-format", "tree after format --all differs from the tree after the single invocations", diffTrees(term.tree, allTree))
+					}
+					if (term.fail != 0) != (all.Exit != 0) {
+						fail("all-equals-any-order-format", fmt.Sprintf("format --all exit %d but single invocations failed=%v", all.Exit, term.fail != 0), nil)
+					}
+					continue
+				}
 				if anyFails {
 					// a file that fails alone must also make --all fail (nothing another file computed may rescue it)
 					if term.fail != 0 && all.Exit == 0 {
